@@ -119,6 +119,18 @@ def drive(ctx):
             seen.setdefault(key, (ab, tr["at"]))
             if seen[key][0] != ab:
                 seen[key] = (ab, tr["at"])
+    # aware values whose tzinfo is NOT a pendulum zone (raw constructor, fromisoformat, astimezone(stdlib tz)): the
+    # offset tokens and the named helpers built on them
+    foreign = [mk_dt({"n": "Europe/Paris", "fo": 0}, [2020, 7, 1, 12, 0, 0, 5], 0, zk="zoneinfo"),
+               mk_dt({"n": "America/St_Johns", "fo": 0}, [2021, 1, 15, 23, 59, 59, 0], 0, zk="zoneinfo"),
+               mk_dt({"n": "", "fo": -34200}, [2020, 7, 1, 12, 0, 0, 0], 0, zk="native-fixed"),
+               mk_dt({"n": "", "fo": 50400}, [1999, 12, 31, 23, 0, 0, 0], 0, zk="native-fixed")]
+    for v in ctx.mine(foreign):
+        for t in ("Z", "ZZ"):
+            ctx.emit("format", {"items": [tok("YYYY"), lit(" "), tok(t)], "locale": "en", "method": "format", "named": ""}, [v])
+        for m in ("to_atom_string", "to_rfc822_string", "to_rfc2822_string", "to_rss_string", "to_w3c_string"):
+            name, fmt = NAMED[m]
+            ctx.emit("format", {"items": tokenize(fmt), "locale": "en", "method": m, "named": name}, [v])
     # random token sequences with separators and escapes
     for k in range(400 if q else 2500):
         items = []
@@ -169,6 +181,20 @@ def drive(ctx):
                      lit(" "), tok("Z")])              # year + day of the year is a full date too
     COMPLETE.append([tok("DDD"), lit("/"), tok("Y"), lit(" "), tok("H"), lit(":"), tok("m"), lit(":"), tok("s"), lit(" "), tok("SSSSSS"), lit(" "),
                      tok("ZZ")])
+    # a day name (or ISO weekday number) next to a full date, parsed under several week configurations
+    DAYNAME = [[tok(dn), lit(", "), tok("YYYY"), lit("-"), tok("MM"), lit("-"), tok("DD"), lit(" "), tok("HH"), lit(":"), tok("mm"), lit(":"),
+                tok("ss"), lit("."), tok("SSSSSS"), lit(" "), tok("Z")] for dn in ("dddd", "ddd", "E")]
+    for (vi, v) in enumerate(ctx.mine(vals)):
+        if v["z"]["n"] == "naive":
+            continue
+        for (di, items) in enumerate(DAYNAME):
+            for wc in (None, {"ws": 6, "we": 5}, {"ws": 5, "we": 4}, {"ws": 2, "we": 1}):
+                if q and (vi + di + (wc or {"ws": 0})["ws"]) % 2:
+                    continue
+                a_ = {"items": items, "locale": ("en", "fr", "de")[di] if wc else "en", "kind": "roundtrip", "now": [2020, 6, 15, 12, 0, 0, 0]}
+                if wc:
+                    a_["wcfg"] = wc
+                ctx.emit("from_format", a_, [v])
     for v in ctx.mine(vals):
         if v["z"]["n"] == "naive":
             continue
